@@ -1,0 +1,217 @@
+//go:build verif
+
+package traversal
+
+// Machine-checked contracts, read by the govc verifier under /verif. Comment-only.
+
+// nodeok(f, n) / dataok(f, d): what the lookup's node filter f answers for contact n, its data filter for reply data d
+// (assumed: the filters are functions of their argument for the life of one lookup).
+//@ spec uf nodeok(f Fn, n types.AddrMaybeId) bool
+//@ spec uf dataok(f Fn, d interface{}) bool
+
+// The data-structure invariant of a running lookup, established by Start and kept by every critical section of op.mu:
+// the callbacks are set, the containers exist, and every contact of the frontier passed the node filter.
+//@ spec def opinv(op *Operation) bool = op != nil && op.queried != nil && op.unqueried != nil && op.input.NodeFilter != nil && op.input.DataFilter != nil && op.input.DoQuery != nil && 0 <= op.outstanding && (op.outstanding <= op.input.Alpha || op.outstanding == 0) && (forall y types.AddrMaybeId :: has(op.unqueried, y) ==> nodeok(op.input.NodeFilter, y))
+// akey(a): the string under which an address is remembered as queried
+//@ spec def akey(a krpc.NodeAddrPort) addrString = addrString(a.AddrPort.String())
+
+//@ func (*dht/traversal.Operation).addNodeLocked@NodeFilter
+//@   trusted
+//@   option noalloc
+//@   ensures the-filter: result == nodeok(callee, arg0)
+//@ func (*dht/traversal.Operation).addClosest@NodeFilter
+//@   trusted
+//@   option noalloc
+//@   option records nodepassed
+//@   ensures the-filter: result == nodeok(callee, arg0)
+//@ func (*dht/traversal.Operation).addClosest@DataFilter
+//@   trusted
+//@   option noalloc
+//@   option records datapassed
+//@   ensures the-filter: result == dataok(callee, arg0)
+
+// ---- C04: what enters the frontier ----
+//@ func (*dht/traversal.Operation).addNodeLocked
+//@   requires inv: opinv(op) && wheld(op.mu)
+//@   modifies op.unqueried, op.cond.ch
+//@   callsite (dht/containers.AddrMaybeIdsByDistance).Add the-contact-offered: $0 == n
+//@   callsite (dht/containers.AddrMaybeIdsByDistance).Add only-addresses-not-yet-queried: !(akey(n.Addr) in op.queried)
+//@   callsite (dht/containers.AddrMaybeIdsByDistance).Add only-contacts-that-pass-the-node-filter: nodeok(op.input.NodeFilter, n)
+//@   ensures inv: opinv(op) && wheld(op.mu)
+//@   ensures frontier-only-grows-by-n: forall y types.AddrMaybeId :: has(op.unqueried, y) == (old(has(op.unqueried, y)) || (result == nil && y == n))
+//@   ensures added-only-if-new-and-passing: result == nil ==> !(akey(n.Addr) in op.queried) && nodeok(op.input.NodeFilter, n)
+
+//@ func (*dht/traversal.Operation).AddNode
+//@   requires nonnil: op != nil && !held(op.mu)
+//@   lockinv op.mu protects frontier-filtered: opinv(op)
+//@   modifies op.unqueried, op.cond.ch
+//@   ensures unlocked: !held(op.mu)
+
+//@ func (*dht/traversal.Operation).AddNodes
+//@   requires nonnil: op != nil && !held(op.mu)
+//@   lockinv op.mu protects frontier-filtered: opinv(op)
+//@   modifies op.unqueried, op.cond.ch
+//@   ensures unlocked: !held(op.mu)
+//@   loop 1
+//@     modifies op.unqueried, op.cond.ch
+//@     invariant inv: opinv(op) && wheld(op.mu)
+
+// ---- C04: what leaves the frontier and is asked ----
+//@ func (*dht/traversal.Operation).markQueried
+//@   requires nonnil: op != nil && op.queried != nil
+//@   modifies op.queried
+//@   ensures marked: akey(addr) in op.queried
+//@   ensures others-untouched: forall k addrString :: k != akey(addr) ==> (k in op.queried) == old(k in op.queried)
+
+//@ func (*dht/traversal.Operation).closestUnqueried
+//@   requires nonnil: op != nil && op.unqueried != nil
+//@   ensures the-nearest-of-the-frontier: ret == op.unqueried.Next()
+//@   ensures a-member: op.unqueried.Len() != 0 ==> has(op.unqueried, ret)
+
+//@ func (*dht/traversal.Operation).popClosestUnqueried
+//@   requires nonnil: op != nil && op.unqueried != nil
+//@   modifies op.unqueried
+//@   ensures the-nearest-of-the-frontier: result == old(op.unqueried.Next())
+//@   ensures was-a-member: old(op.unqueried.Len()) != 0 ==> old(has(op.unqueried, result))
+//@   ensures removed: op.unqueried != nil && (forall y types.AddrMaybeId :: has(op.unqueried, y) == (old(has(op.unqueried, y)) && y != result))
+
+// haveQuery: the stall predicate (C03). A candidate qualifies if the result set is not full, or it has a known ID that is
+// no farther from the target than the farthest member.
+//@ func (*dht/traversal.Operation).haveQuery
+//@   requires nonnil: op != nil && op.unqueried != nil
+//@   option records havequery
+//@   ensures nothing-to-ask-on-an-empty-frontier: op.unqueried.Len() == 0 ==> !result
+//@   ensures ask-while-the-result-set-is-not-full: op.unqueried.Len() != 0 && !op.closest.Full() ==> result
+//@   ensures unknown-ids-do-not-qualify-once-full: op.unqueried.Len() != 0 && op.closest.Full() && !op.unqueried.Next().Id.Ok ==> !result
+//@   ensures ask-while-the-nearest-candidate-is-no-farther-than-the-farthest-member: op.unqueried.Len() != 0 && op.closest.Full() && op.unqueried.Next().Id.Ok ==> result == !ult(op.closest.Farthest().Key.ID ^ op.targetInt160.bits, op.unqueried.Next().Id.Value.bits ^ op.targetInt160.bits)
+
+//@ func (*dht/traversal.Operation).startQuery
+//@   requires inv: opinv(op) && wheld(op.mu)
+//@   requires a-candidate: op.unqueried.Len() != 0
+//@   requires within-the-fan-out-bound: op.outstanding < op.input.Alpha
+//@   modifies op.unqueried, op.queried, op.outstanding
+//@   callsite (*dht/traversal.Operation).markQueried no-address-is-queried-twice: !($addr.AddrPort.String() in op.queried)
+//@   callsite go:(*dht/traversal.Operation).startQuery$1 the-popped-contact-after-marking-it-queried: $a == old(op.unqueried.Next()) && (akey($a.Addr) in op.queried) && op.outstanding == old(op.outstanding) + 1
+//@   ensures inv: opinv(op) && wheld(op.mu)
+//@   ensures one-more-in-flight-per-query-spawned: (count("go:(*dht/traversal.Operation).startQuery$1") == 1 && op.outstanding == old(op.outstanding) + 1) || (count("go:(*dht/traversal.Operation).startQuery$1") == 0 && op.outstanding == old(op.outstanding))
+
+// The query goroutine. The contact it asks is the one it was spawned with (popped from the frontier, so it passed the
+// node filter, and marked queried); a watcher that cancels the query's context when the lookup is stopping is spawned
+// before the query is made; a responder enters the result set only through addClosest, with the data of its own reply;
+// the in-flight count is given back by the deferred function, after the query returned.
+//@ spec uf donechan(s *chansync.SetOnce) events.Done
+//@ func (*github.com/anacrolix/chansync.SetOnce).Done
+//@   trusted
+//@   option noalloc
+//@   ensures the-events-channel: result == donechan(me)
+//@ func (context.Context).Done
+//@   trusted
+//@   option uf
+//@   option noalloc
+//@   ensures result == self.Done()
+//@ func (dht/krpc.NodeAddrPort).ToNodeAddr
+//@   trusted
+//@   option records asked
+//@ func (*dht/traversal.Operation).startQuery$1@DoQuery
+//@   trusted
+//@ func dht/types.AddrMaybeIdSliceFromNodeInfoSlice
+//@   trusted
+//@ func (*dht/traversal.Operation).startQuery$1
+//@   requires spawned-with-a-filtered-contact: op != nil && op.input.DoQuery != nil && nodeok(op.input.NodeFilter, a)
+//@   requires holds-no-lock: !held(op.mu)
+//@   modifies *
+//@   callsite (dht/krpc.NodeAddrPort).ToNodeAddr the-spawned-contact: $me == a.Addr
+//@   callsite dynamic:DoQuery asks-the-address-it-was-spawned-with: $1 == recorded("asked") && count("call:dynamic:DoQuery") == 0
+//@   callsite dynamic:DoQuery the-context-the-watcher-cancels: $0 == ctx && count("go:(*dht/traversal.Operation).startQuery$1$2") == 1
+//@   callsite go:(*dht/traversal.Operation).startQuery$1$2 watches-this-query: $ctx == ctx && $cancel == cancel && $op == op && count("call:dynamic:DoQuery") == 0
+//@   callsite (*dht/traversal.Operation).startQuery$1$3 only-for-a-responder: res.ResponseFrom != nil
+//@   callsite (*dht/traversal.Operation).startQuery$1$3 while-still-counted-in-flight: count("call:(*dht/traversal.Operation).startQuery$1$1") == 0
+//@   callsite (*dht/traversal.Operation).AddNodes while-still-counted-in-flight: count("call:(*dht/traversal.Operation).startQuery$1$1") == 0
+//@   ensures one-query: count("call:dynamic:DoQuery") == 1
+//@   ensures gives-the-slot-back-once: count("call:(*dht/traversal.Operation).startQuery$1$1") == 1
+//@   ensures unlocked: !held(op.mu)
+
+// deferred by the query goroutine: one query fewer in flight, and the run loop is woken
+// (lockowns: the goroutine that runs this was counted in op.outstanding when it was spawned and is counted until here)
+//@ func (*dht/traversal.Operation).startQuery$1$1
+//@   requires nonnil: op != nil && !held(op.mu)
+//@   lockinv op.mu protects frontier-filtered: opinv(op)
+//@   lockowns op.mu grants its-own-slot-of-the-in-flight-count: op.outstanding >= 1
+//@   modifies op.outstanding, op.cond.ch
+//@   ensures one-fewer-in-flight: op.outstanding == old(op.outstanding) - 1
+//@   ensures unlocked: !held(op.mu)
+
+// the watcher: it waits for the query's context or for the lookup to be stopped, and in the second case cancels
+//@ func (*dht/traversal.Operation).startQuery$1$2@cancel
+//@   trusted
+//@ func (*dht/traversal.Operation).startQuery$1$2
+//@   requires nonnil: op != nil && ctx != nil && cancel != nil
+//@   ensures waits-for-the-stop-event: offers(donechan(&op.stopping)) && offers(ctx.Done())
+//@   ensures cancels-unless-the-query-ended-first: selected(ctx.Done()) || count("call:dynamic:cancel") == 1
+
+// a responder is offered to the result set, under the lock, with the data of its own reply
+//@ func (*dht/traversal.Operation).startQuery$1$3
+//@   requires a-responder: op != nil && !held(op.mu) && res.ResponseFrom != nil
+//@   lockinv op.mu protects frontier-filtered: opinv(op)
+//@   modifies op.closest, op.stats.NumResponses
+//@   callsite (*dht/traversal.Operation).addClosest the-responder-with-its-own-data: $node == *res.ResponseFrom && $data == res.ClosestData && wheld(op.mu)
+//@   ensures unlocked: !held(op.mu)
+
+// ---- C02: what enters the result set ----
+//@ func (*dht/types.AddrMaybeId).FromNodeInfo
+//@   requires nonnil: me != nil
+//@   modifies *me
+//@   ensures the-contact: me.Id.Ok && me.Id.Value.bits == ni.ID
+//@ func (dht/krpc.NodeInfo).ToNodeInfoAddrPort
+//@   trusted
+//@   option uf
+//@   option noalloc
+//@   ensures result == self.ToNodeInfoAddrPort()
+//@   ensures same-id: result.ID == me.ID
+//@ func (*dht/traversal.Operation).addClosest
+//@   requires inv: opinv(op) && wheld(op.mu)
+//@   modifies op.closest
+//@   callsite dynamic:NodeFilter the-responder: $0.Id.Ok && $0.Id.Value.bits == node.ID
+//@   callsite dynamic:DataFilter its-data: $0 == data
+//@   callsite (dht/k-nearest-nodes.Type).Push only-responders-that-pass-both-filters: recorded("nodepassed") && recorded("datapassed")
+//@   callsite (dht/k-nearest-nodes.Type).Push the-responder-with-its-own-data: $me == op.closest && $elem.Key == node.ToNodeInfoAddrPort() && $elem.Data == data
+//@   ensures inv: opinv(op) && wheld(op.mu)
+//@   ensures nothing-but-this-responder-enters: forall k krpc.NodeInfoAddrPort :: kmem(op.closest, k) ==> old(kmem(op.closest, k)) || k == node.ToNodeInfoAddrPort()
+//@   ensures data-of-the-others-untouched: forall k krpc.NodeInfoAddrPort :: kmem(op.closest, k) && k != node.ToNodeInfoAddrPort() ==> kdata(op.closest, k) == old(kdata(op.closest, k))
+//@   ensures the-responder-keeps-its-own-data: kmem(op.closest, node.ToNodeInfoAddrPort()) ==> kdata(op.closest, node.ToNodeInfoAddrPort()) == data || (old(kmem(op.closest, node.ToNodeInfoAddrPort())) && kdata(op.closest, node.ToNodeInfoAddrPort()) == old(kdata(op.closest, node.ToNodeInfoAddrPort())))
+
+// ---- C03 / C04: the run loop ----
+//@ spec uf sigchan(l *chansync.LevelTrigger) events.Signal
+//@ func (*github.com/anacrolix/chansync.LevelTrigger).Signal
+//@   trusted
+//@   option noalloc
+//@   ensures the-events-channel: result == sigchan(me)
+//@ func (*github.com/anacrolix/chansync.BroadcastCond).Signaled
+//@   trusted
+//@   modifies me.ch
+//@ func (*dht/traversal.Operation).run
+//@   requires nonnil: op != nil && !held(op.mu)
+//@   lockinv op.mu protects frontier-filtered: opinv(op)
+//@   modifies *
+//@   callsite (*dht/traversal.Operation).startQuery within-the-fan-out-bound: op.outstanding < op.input.Alpha && wheld(op.mu)
+//@   callsite (*dht/traversal.Operation).startQuery not-once-the-lookup-is-stopping: !recorded("closed")
+//@   callsite select-send:stalled stalled-only-when-nothing-is-in-flight-and-nothing-is-left-to-ask: stalled != nil ==> op.outstanding == 0 && (!recorded("havequery") || op.input.Alpha == 0)
+//@   loop 1
+//@     invariant inv: opinv(op) && wheld(op.mu)
+//@   loop 2
+//@     invariant inv: opinv(op) && wheld(op.mu)
+
+//@ func (*github.com/anacrolix/chansync.SetOnce).Set
+//@   trusted
+//@   modifies me.closed
+//@ func (*dht/traversal.Operation).Stop
+//@   requires nonnil: op != nil
+//@   modifies op.stopping.closed
+//@   ensures a-waiter-at-most: count("go:(*dht/traversal.Operation).Stop$1") <= 1
+//@ func (*dht/traversal.Operation).Stop$1
+//@   requires nonnil: op != nil && !held(op.mu)
+//@   lockinv op.mu protects frontier-filtered: opinv(op)
+//@   modifies *
+//@   callsite (*github.com/anacrolix/chansync.SetOnce).Set stopped-only-when-nothing-is-in-flight: $me == &op.stopped && op.outstanding == 0
+//@   loop 1
+//@     invariant locked: op != nil && wheld(op.mu) && opinv(op)
